@@ -9,6 +9,8 @@ Model: `ProbLogModel.DDNNF` (`Circuit`, `evalC`, `validate`, `rootVars`), semant
 All theorems hold for every circuit, all weights and every commutative semiring.
 -/
 import ProbLogProofs.Lemmas.DDNNFRoot
+import ProbLogProofs.Lemmas.DDNNFWeights
+import Mathlib.Algebra.Ring.Rat
 
 open Finset
 
@@ -48,6 +50,33 @@ theorem C10_line_is_wmc (c : Circuit) (w : Int → R) (h : validate c = .ok) (i 
 theorem C10_impliesLit_sound (c : Circuit) (h : validate c = .ok) (T : Finset Nat) (fuel i : Nat) (l : Int)
     (himp : impliesLit c fuel i l = true) (hs : sat c i T = true) : litTrue (assign T) l = true :=
   impliesLit_sound (validate_valid h).forward (assign T) fuel i l himp hs
+
+/-! ### what acceptance by the validator means semantically (the three d-DNNF conditions of the property text) -/
+
+/-- AND lines are decomposable: children have pairwise disjoint variable sets. -/
+theorem C10_decomposable (c : Circuit) (h : validate c = .ok) (i : Nat) (hi : i < c.length) (cs : List Nat)
+    (hnd : c[i] = .and cs) : cs.Pairwise (fun a b => Disjoint (vars c a) (vars c b)) := by
+  have := (validate_valid h).and_decomposable hi hnd
+  rw [pairwise_iff, List.pairwise_map] at this
+  exact this.imp (fun hab => (disjointVars_iff _ _).mp hab)
+
+/-- OR lines are smooth and deterministic: any two children have the same variables and are never true together. -/
+theorem C10_smooth_deterministic (c : Circuit) (h : validate c = .ok) (i : Nat) (hi : i < c.length) (j : Nat)
+    (cs : List Nat) (hnd : c[i] = .or j cs) :
+    cs.Pairwise (fun a b => vars c a = vars c b ∧ ∀ T, ¬ (sat c a T = true ∧ sat c b T = true)) := by
+  have hv := validate_valid h
+  rcases hv.or_cases hi hnd with rfl | ⟨a, rfl⟩ | ⟨a, b, rfl, hsm, _, l, hl, ha, hb⟩
+  · exact List.Pairwise.nil
+  · exact List.pairwise_singleton _ _
+  · rw [List.pairwise_pair]
+    exact ⟨by unfold vars; rw [hsm], fun T => hv.or_exclusive (assign T) hl ha hb⟩
+
+/-- the validator does reject: an OR of two independent literals (not deterministic), an OR of children with
+different variables (not smooth), an AND of a variable with itself (not decomposable), a forward reference -/
+example : validate [.lit 1, .lit 2, .or 1 [0, 1]] ≠ .ok := by decide
+example : validate [.lit 1, .lit (-1), .lit 2, .and [1, 2], .or 1 [0, 3]] ≠ .ok := by decide
+example : validate [.lit 1, .lit 1, .and [0, 1]] ≠ .ok := by decide
+example : validate [.and [1], .lit 1] ≠ .ok := by decide
 
 /-- Model counting: with `R = ℕ` and all weights 1 the value is the number of models. -/
 theorem C10_count (c : Circuit) (h : validate c = .ok) :
@@ -108,6 +137,22 @@ theorem C10_query_trick (c : Circuit) (w : Int → R) (q : Int) (h : validate c 
   exact wt_query w _ T hq hmem
 
 example : (2 : Int).natAbs ∈ rootVarsF exC := by decide
+
+/-- `SimpleDDNNFEvaluator._set_value(|k|, k > 0)` (model `setValue`) on the evaluator's weight table is exactly the
+weight change of `C10_query_trick`: the weight of the literal `-k` becomes 0, nothing else changes. -/
+theorem C10_setValue_weights (ws : List (Nat × (Rat × Rat))) (k : Int) (hk : k ≠ 0) :
+    litWeight (setValue ws k.natAbs (decide (k > 0))) = fun l => if l = -k then 0 else litWeight ws l :=
+  litWeight_setValue ws k hk
+
+/-- … hence evaluating the circuit with the table after `_set_value` gives the weighted count of the models with `k`
+(probability semiring, exact rationals). -/
+theorem C10_query_trick_setValue (c : Circuit) (ws : List (Nat × (Rat × Rat))) (k : Int) (h : validate c = .ok)
+    (hk : k ≠ 0) (hmem : k.natAbs ∈ rootVarsF c) :
+    evalC ratSR (litWeight (setValue ws k.natAbs (decide (k > 0)))) c =
+      ∑ T ∈ models c with litTrue (assign T) k = true,
+        ∏ x ∈ rootVarsF c, (if x ∈ T then litWeight ws (x : Int) else litWeight ws (-(x : Int))) := by
+  rw [C10_setValue_weights ws k hk]
+  exact C10_query_trick (R := ℚ) c (litWeight ws) k h hk hmem
 
 /-- A homomorphism of semiring records commutes with circuit evaluation (no validity needed). -/
 theorem C05_hom {A B : Type} (sr : SR A) (sr' : SR B) (f : A → B) (hf : SRHom sr sr' f)
